@@ -20,14 +20,11 @@ def key_names(m, obs):
     ex = m.get("explained_by") or []
     if ex:
         return "%s:%s" % (m["what"], "+".join(sorted(ex)))
-    # class of failing history: clause + the calls / messages up to the failing result
-    at = (m.get("detail") or {}).get("at") if isinstance(m.get("detail"), dict) else None
-    log = obs.get("log", [])[: at or None]
-    kinds = ",".join(
-        (e.get("op", "") + "/" + "+".join(e.get("flags", []))) if e["k"] == "call" else
-        (e["what"] + ("" if e.get("gen", True) else "!forged") + ("" if e.get("name", "N") == "N" else "@M") + e.get("code", "")) if e["k"] == "recv" else
-        e["k"] for e in log if e["k"] in ("call", "recv", "bus"))
-    return "%s:%s" % (m["what"], kinds)
+    # class of failing history: clause + what the client knew + how it answered
+    info = (m.get("detail") or {}).get("info") if isinstance(m.get("detail"), dict) else None
+    if isinstance(info, dict):
+        return "%s:%s:%s:%s" % (m["what"], info.get("knowledge"), "bus" if info.get("via_bus") else "local", info.get("result"))
+    return m["what"]
 
 
 def validate(chk, pid, obs_path, cases, shards):
